@@ -23,6 +23,8 @@ E1 = {
     'C03': 'harness.c03_polymorph',
     'C04': 'harness.c04_noconstruct',
     'C05': 'harness.c05_roundtrip',
+    'C06': 'harness.c06_dumps',
+    'C07': 'harness.c07_json',
     'C08': 'harness.c08_errors',
     'C09': 'harness.c09_resolver',
     'C13': 'harness.c13_invariance',
